@@ -138,11 +138,11 @@ func domBy(fn *ssa.Function, ins ssa.Instruction, cond VM, outcome bool) bool {
 // registers (phi) or kept in a cell (address taken / captured by a closure).
 func Local(name string) VM {
 	return func(v ssa.Value) bool {
-		if p, ok := v.(*ssa.Phi); ok && p.Comment == name {
+		if p, ok := v.(*ssa.Phi); ok && phiIs(p, name) {
 			return true
 		}
 		if u, ok := v.(*ssa.UnOp); ok && u.Op.String() == "*" {
-			if a, ok := u.X.(*ssa.Alloc); ok && a.Comment == name {
+			if a, ok := u.X.(*ssa.Alloc); ok && allocIs(a, name) {
 				return true
 			}
 		}
